@@ -429,3 +429,59 @@ Proof.
 Qed.
 Theorem unknown_name_has_no_index s n : field_index s n = None <-> ~ In n (map fs_name (st_fields s)).
 Proof. apply index_of_none. Qed.
+
+(* ---------- accepted iff every row is accepted in turn and the end-of-CID conditions hold *)
+Lemma read_rows_accept_conv e rows : forall line s s', steps e s rows = ROk s' ->
+  (exists d, st_fmt s' = Some d /\ validate_format d = true) -> st_fields s' <> [] -> read_rows e rows line s = CidOk s'.
+Proof.
+  induction rows as [|r rows IH]; intros line s s' H [d [Ef V]] Hf; cbn [steps read_rows] in *.
+  - injection H as <-. unfold finish. rewrite Ef, V. cbn [negb]. destruct (st_fields s); [congruence|reflexivity].
+  - destruct (row_step e s r) as [s1| | |]; try discriminate. apply IH; [exact H| |exact Hf]. exists d. auto.
+Qed.
+Theorem cid_accepted_iff e rows s : cid_read e rows = CidOk s <->
+  steps e cstate0 rows = ROk s /\ (exists d, st_fmt s = Some d /\ validate_format d = true) /\ st_fields s <> [].
+Proof.
+  split.
+  - intros H. unfold cid_read in H. apply read_rows_accept in H. exact H.
+  - intros [H1 [H2 H3]]. apply read_rows_accept_conv; assumption.
+Qed.
+(* and a CID is refused with an interface error iff some row is the first to be refused or the end-of-CID conditions fail *)
+Theorem cid_refused_iff e rows : (exists n, cid_read e rows = CidInterface n) <->
+  (exists k s, (k < length rows)%nat /\ steps e cstate0 (firstn k rows) = ROk s /\ row_step e s (nth k rows []) = RInterface)
+  \/ (exists s, steps e cstate0 rows = ROk s /\
+        (st_fmt s = None \/ (exists d, st_fmt s = Some d /\ validate_format d = false) \/ st_fields s = [])).
+Proof.
+  unfold cid_read. generalize 0%nat as line. generalize cstate0 as s0.
+  induction rows as [|r rows IH]; intros s0 line.
+  - cbn [read_rows steps firstn length nth]. split.
+    + intros [n H]. right. exists s0. split; [reflexivity|]. unfold finish in H.
+      destruct (st_fmt s0) as [d|]; [|left; reflexivity]. right.
+      destruct (validate_format d) eqn:V; cbn [negb] in H.
+      * right. destruct (st_fields s0); [reflexivity|discriminate].
+      * left. exists d. auto.
+    + intros [[k [s [Hk _]]]|[s [Hs Hc]]]; [cbn in Hk; lia|]. injection Hs as <-. unfold finish.
+      destruct Hc as [->|[[d [-> V]]|Hf]].
+      * eexists. reflexivity.
+      * rewrite V. cbn [negb]. eexists. reflexivity.
+      * destruct (st_fmt s0) as [d|]; [|eexists; reflexivity].
+        destruct (negb (validate_format d)); [eexists; reflexivity|]. rewrite Hf. eexists. reflexivity.
+  - cbn [read_rows steps]. destruct (row_step e s0 r) as [s1| | |] eqn:E.
+    + rewrite (IH s1 (S line)). split.
+      * intros [[k [s [Hk [Hs Hr]]]]|[s [Hs Hc]]].
+        -- left. exists (S k), s. cbn [length firstn steps nth]. rewrite E. split; [lia|]. auto.
+        -- right. exists s. auto.
+      * intros [[k [s [Hk [Hs Hr]]]]|[s [Hs Hc]]].
+        -- left. destruct k as [|k].
+           ++ cbn [firstn steps nth] in *. injection Hs as <-. congruence.
+           ++ cbn [length firstn steps nth] in *. rewrite E in Hs. exists k, s. split; [lia|]. auto.
+        -- right. exists s. auto.
+    + split; [|intros _; eexists; reflexivity]. intros _. left. exists 0%nat, s0. cbn [length firstn steps nth]. split; [lia|]. auto.
+    + split.
+      * intros [n H]. discriminate.
+      * intros [[k [s [Hk [Hs Hr]]]]|[s [Hs _]]]; [|discriminate].
+        destruct k as [|k]; cbn [firstn steps nth] in *; [injection Hs as <-; congruence|]. rewrite E in Hs. discriminate.
+    + split.
+      * intros [n H]. discriminate.
+      * intros [[k [s [Hk [Hs Hr]]]]|[s [Hs _]]]; [|discriminate].
+        destruct k as [|k]; cbn [firstn steps nth] in *; [injection Hs as <-; congruence|]. rewrite E in Hs. discriminate.
+Qed.
